@@ -9,6 +9,7 @@ package main
 import (
 	"fmt"
 	"go/token"
+	"go/types"
 	"math/big"
 	"sort"
 	"strings"
@@ -586,13 +587,36 @@ func (c *Ctx) entailsLinearRec(env *linEnv, pc *Formula, facts []LinFact, depth 
 			background = append(background, Constraint{lin: ln.scale(big.NewRat(-1, 1)), why: "len ≥ 0"})
 		}
 	}
+	// hand-written index searches of the repository: r < len(list) (r < 0 when nothing matches)
+	addIdx2 := func(t *Term) {
+		if t.Kind != "call" || t.Fn == nil || seenIdx[t.Key()] {
+			return
+		}
+		if sum := indexSearchSummary(c.p, t.Fn); sum != nil {
+			seenIdx[t.Key()] = true
+			list, _ := sum.bound(t.Args)
+			// the list as it was when the search ran: the memory version of its field at the call
+			if call, ok := t.Val.(*ssa.Call); ok && t.C != nil && list.Kind == "field" && len(list.Args) == 1 && call.Parent() == t.C.fn {
+				if fv, ok := list.Obj.(*types.Var); ok && t.C.unstable(fv, list.Args[0]) {
+					cp := *list
+					cp.ID = t.C.fieldVersion(fv, call)
+					cp.key, cp.str = "", ""
+					list = &cp
+				}
+			}
+			v := linVar(t)
+			ln := linVar(lenOf("len", list))
+			background = append(background, leq(v, ln, -1, t.String()+" < len"))
+			background = append(background, Constraint{lin: ln.scale(big.NewRat(-1, 1)), why: "len ≥ 0"})
+		}
+	}
 	for _, at := range full.Atoms() {
-		at.walk(func(x *Term) bool { addIdx(x); return true })
+		at.walk(func(x *Term) bool { addIdx(x); addIdx2(x); return true })
 	}
 	for _, f := range facts {
-		f.A.walk(func(x *Term) bool { addIdx(x); return true })
+		f.A.walk(func(x *Term) bool { addIdx(x); addIdx2(x); return true })
 		if f.B != nil {
-			f.B.walk(func(x *Term) bool { addIdx(x); return true })
+			f.B.walk(func(x *Term) bool { addIdx(x); addIdx2(x); return true })
 		}
 	}
 	// induction variables: φ(c0, φ + k) with k > 0 never drops below c0 (covers range indices)
@@ -667,6 +691,26 @@ func (c *Ctx) entailsLinearRec(env *linEnv, pc *Formula, facts []LinFact, depth 
 	}
 	for changed := true; changed; {
 		changed = false
+		// background facts tie variables together as well (r < len(list) for an index search r)
+		for _, bc := range background {
+			if len(bc.lin.coef) < 2 {
+				continue
+			}
+			touch := false
+			for k := range bc.lin.coef {
+				if relVars[k] {
+					touch = true
+				}
+			}
+			if touch {
+				for k := range bc.lin.coef {
+					if !relVars[k] {
+						relVars[k] = true
+						changed = true
+					}
+				}
+			}
+		}
 		for _, la := range latoms {
 			if relAtom[la.key] {
 				continue
